@@ -17,6 +17,8 @@ m={"version":1,
 for i in ids:
     if i in CHECKS:
         cat,tech,text,note,ref=CHECKS[i]
+        if i in ("C08","C10","C15","C16","C17"):
+            text+=" The complete bounds of this check take seconds, so the quick tier enumerates the same space as the thorough tier (numbers in parentheses above)."
         m["checks"].append({"property_id":i,"quick_cmd":f"./check {i} --tier quick","thorough_cmd":f"./check {i} --tier thorough","evidence_file":f"/verif/evidence/{i}.json","replay_cmd_template":"./check replay {path}","engine":"epmc","level_claimed":{"category":cat,"text":text,"design_ref":ref},"level_note":note,"technique":tech})
     else:
         m["not_applicable"].append({"property_id":i,"reason":"check not built yet (work in progress; model checking applies, see DESIGN.md section 4)"})
